@@ -290,9 +290,9 @@ class UnionMarshaller(AbstractMarshaller[UnionT], tp.Generic[UnionT]):
             return val
 
         for routine in self.ordered_routines:
-            with contextlib.suppress(
-                ValueError, TypeError, SyntaxError, AttributeError
-            ):
+            # A member rejects the input with whatever error its constructor raises
+            # (OverflowError, decimal.InvalidOperation, OSError, re.error, ...).
+            with contextlib.suppress(Exception):
                 unmarshalled = routine(val)
                 return unmarshalled
 
